@@ -53,6 +53,8 @@ THEOREMS = [
     "XalanModel.Props.C19.arena_balanced_and_failure_contained_partial",
     "XalanModel.Props.C19.arena_uncommitted_slot_counterexample",
     "XalanModel.Props.C19.deque_null_block_counterexample",
+    "XalanModel.Props.C19.arena_destroyObject_makes_no_request",
+    "XalanModel.Props.C19.arena_push_then_erase_allocates_counterexample",
     "XalanModel.Props.C19.guard_idiom_sound",
     "XalanModel.Props.C19.reserve_before_create_sound",
     "XalanModel.Props.C19.create_then_push_leaks_counterexample",
@@ -62,7 +64,9 @@ CORPUS_DIR = os.path.join(common.ROOT, "gen", "corpus", "c19")
 
 # (name, api) — fixed scenario set: known findings are keyed by call site, so the inputs are not randomised
 QUICK_SCENARIOS = [("s1", "split"), ("s2", "direct"), ("s3", "split"), ("s4", "direct"), ("s7", "split"), ("s8", "split"),
-                   ("s9", "split")]   # nested include/import chain, keys, decimal-formats, attribute-sets, document(), EXSLT
+                   ("s9", "split"),   # nested include/import chain, keys, decimal-formats, attribute-sets, document(), EXSLT
+                   ("s10", "split"),  # every Elem* type, extension elements with xsl:fallback after heap-allocated elements
+                   ("s11", "split")]  # > blockSize simultaneously live objects of the arena-allocated types, out-of-order release
 THOROUGH_SCENARIOS = QUICK_SCENARIOS + [("s5", "split"), ("s6", "split"), ("s2", "split"), ("s5", "direct"), ("s9", "direct")]
 PHASES = ["ctor", "compile", "parse", "transform", "destroy"]
 
@@ -207,6 +211,24 @@ def gen_bvec_ops(r, n):
     return ops
 
 
+def gen_ra_ops(r, n):
+    """ReusableArenaAllocator<Boxed>: creates beyond one block, releases in arbitrary order (objects named by creation index;
+    after a refusal an index may name an object that was never made: replied `ub`, a caller error)"""
+    ops = ["ra new %d" % r.range(1, 3)]
+    made, alive = 0, []
+    for _ in range(n + 4):
+        if alive and r.chance(2, 5):
+            j = alive.pop(r.below(len(alive)))
+            ops.append("ra destroy %d" % j)
+        else:
+            ops.append("ra create %d" % r.range(0, 60)); alive.append(made); made += 1
+    r2 = r.shuffle(alive)
+    for j in r2[:len(r2) // 2]:
+        ops.append("ra destroy %d" % j)
+    ops.append("ra free")
+    return ops
+
+
 def gen_deque_ops(r, n):
     ops = ["d new %d" % r.range(1, 3)]
     for _ in range(n):
@@ -217,6 +239,11 @@ def gen_deque_ops(r, n):
 
 
 CONTAINER_CORPUS = [
+    # destroyObject of an object whose block is not at the head: the move to the front must not allocate (seeded break:
+    # push_front before erase); refusal index 16 is the first request after the five creations
+    (16, ["ra new 2", "ra create 1", "ra create 2", "ra create 3", "ra create 4", "ra create 5", "ra destroy 0", "ra destroy 2", "ra free"]),
+    (0, ["ra new 2", "ra create 1", "ra create 2", "ra create 3", "ra create 4", "ra create 5", "ra destroy 0", "ra destroy 4",
+         "ra destroy 2", "ra create 6", "ra create 7", "ra destroy 1", "ra destroy 3", "ra free"]),
     # refusal INSIDE the element-copy loop of the append path (copy constructor used by grow/reserve): only the constructed
     # prefix may be destroyed (seeded break: m_size set before the loop)
     (7, ["bv push 1", "bv push 2", "bv push 3", "bv destroy"]),
@@ -263,11 +290,13 @@ def container_part(ctx, r, model):
     seqs = [(k, ops) for k, ops in CONTAINER_CORPUS]
     base = []
     for i in range(nseq):
-        ops = (gen_list_ops, gen_vec_ops, gen_arena_ops, gen_deque_ops, gen_bvec_ops)[i % 5](r, r.range(1, maxops))
+        ops = (gen_list_ops, gen_vec_ops, gen_arena_ops, gen_deque_ops, gen_bvec_ops, gen_ra_ops)[i % 6](r, r.range(1, maxops))
         base.append(ops)
     for ops in base:
         # every refusal index: an op makes at most 3 requests (+1 sentinel)
         top = 3 * len(ops) + 3
+        if ops[0].startswith("ra"):
+            top = min(5 * len(ops) + 6, 120)
         if ops[0].startswith("bv"):
             top = 4 + sum(6 + 2 * j for j in range(len(ops)))      # growth copies every element again
             top = min(top, 120)
@@ -305,7 +334,11 @@ def container_part(ctx, r, model):
         word = iv.split()[0] if iv.split() else ""
         if iv != mv:
             seen_bad.add(si)      # one report per log
-        if word == "ub" and not (o.startswith("l pop") or o == "v pop" or o == "bv pop" or o.startswith("a destroy")):
+        if word == "oom" and o.startswith("ra destroy"):
+            seen_bad.add(si)
+            ctx.fail("ra.destroyObject-allocates: " + text, "ReusableArenaAllocator::destroyObject made an allocation request (refused: the "
+                     "exception leaves destroyObject, which the library calls from destructors): " + iv, [("new %d" % k)] + ops)
+        elif word == "ub" and not (o.startswith("l pop") or o == "v pop" or o == "bv pop" or o.startswith("a destroy") or o.startswith("ra destroy")):
             seen_bad.add(si)
             ctx.fail("list.ub-after-throwing-copy: " + text if o == "l destroy" else
                      "arena.ub-uncommitted-slot: " + text if o == "a free" else
@@ -318,7 +351,7 @@ def container_part(ctx, r, model):
             ctx.fail("container.badfree: " + text, "double or foreign free reported by the manager: " + iv, [("new %d" % k)] + ops)
         elif iv.endswith("destroyed"):
             fired = int(f["reqs"]) >= k > 0
-            leaked_by_ctp = any(x == "v ctp" for x in ops)
+            leaked_by_ctp = any(x == "v ctp" for x in ops) or ops[0].startswith("ra ")   # push_front of a new block refused: block leaked
             if f["live"] != "0" and not (fired and leaked_by_ctp):
                 seen_bad.add(si)
                 ctx.fail("container.unbalanced: " + text, "blocks outstanding after the destructor: " + iv, [("new %d" % k)] + ops)
@@ -326,7 +359,7 @@ def container_part(ctx, r, model):
         nontriv = k > 0 and len(ops) > 2
         ctx.case(nontrivial_key=("c", k, " ".join(ops)) if nontriv else None,
                  sample={"failAt": k, "ops": ops} if si in (len(CONTAINER_CORPUS), len(CONTAINER_CORPUS) + 7) else None,
-                 cls="container:" + ("bvec" if ops[0].startswith("bv") else {"l": "list", "a": "arena", "d": "deque"}.get(ops[0][0], "vec")))
+                 cls="container:" + ("bvec" if ops[0].startswith("bv") else "blocklist" if ops[0].startswith("ra") else {"l": "list", "a": "arena", "d": "deque"}.get(ops[0][0], "vec")))
     ctx.extra["container_disagreements"] = disagreements[:5]
     ctx.oblige("correspondence: XalanList<Boxed>/XalanVector<long>/XalanConstruct (real templates, failing manager) = Lean model "
                "on every op log and every refusal index", "correspondence", agree, str(disagreements[:2]))
@@ -362,6 +395,20 @@ def api_part(ctx, r, model):
         # balance with no injected failure (successful and failing transformations alike)
         if c["live"] != "0" or c["foreign"] != "0" or c["double"] != "0":
             ctx.fail("api.unbalanced[%s]" % tag, "no allocation refused, yet after ~XalanTransformer: " + cl[0], {"scenario": tag, "k": 0})
+        # the compiled stylesheet alone (compile + destroyStylesheet): only the transformer's own vector buffer may remain
+        if "cssleak" in c:
+            if int(c["cssleak"]) > 1 or c.get("cssfinal") != "0" or c.get("cssbad") != "0":
+                ctx.fail("api.unbalanced-compiled-stylesheet[%s]" % tag,
+                         "compileStylesheet + destroyStylesheet leaves blocks behind / bad frees: cssleak=%s cssfinal=%s cssbad=%s" % (
+                             c["cssleak"], c.get("cssfinal"), c.get("cssbad")), {"scenario": tag, "k": 0})
+            ctx.case(nontrivial_key=("cssonly", tag), cls="balance-compiled-stylesheet")
+        # evidence: blocks reached per arena allocator type (first block = 4 requests under allocateBlock, later ones 3)
+        if c.get("arena", "-") != "-":
+            blocks = {}
+            for item in c["arena"].split(","):
+                nm, nreq = item.rsplit(":", 1)
+                blocks[nm] = 1 + max(0, int(nreq) - 4) // 3
+            ctx.extra.setdefault("arena_blocks_reached", {})[tag] = blocks
         # the same verdict from the Lean ledger on the recorded event trace
         v = lean_trace_verdict(model, trace)
         if v is None or v["verdict"] == "rejected":
@@ -463,6 +510,14 @@ def api_part(ctx, r, model):
                 trace_ok = False; trace_detail.append("seq %s: ledger %s" % (steps, v))
     ctx.oblige("specification predicate via the Lean ledger (Ledger.replayAll/Balanced) agrees with the harness counters on "
                "every recorded trace", "correspondence", trace_ok, "\n".join(trace_detail[:5]))
+    ab = ctx.extra.get("arena_blocks_reached", {})
+    best = {}
+    for tag2, bl in ab.items():
+        for nm, nb in bl.items():
+            best[nm] = max(best.get(nm, 0), nb)
+    ctx.extra["arena_allocators_max_blocks"] = best
+    ctx.hist["arena:allocator-types-seen"] = len(best)
+    ctx.hist["arena:allocator-types-with>=2-blocks"] = sum(1 for v in best.values() if v >= 2)
     ctx.extra["fault_enumeration"] = stats
     ctx.extra["_ended_abnormally"] = ctx.extra.get("_ended_abnormally", set())
     for k2, v2 in stats.items():
